@@ -81,7 +81,7 @@ def w1_file_mutation_api(ctx):
                 if f == "storage::bitcask::log::create" and cn in ("std::fs::OpenOptions::append", "std::fs::OpenOptions::create_new"):
                     v = const_int(arg_origin(b, t, 1))
                     r.add(f, "OpenOptions::%s(%s)" % (short, "true" if v == 1 else "non-constant-or-false"), v == 1, where(b, bi), "" if v == 1 else "the flag must be the constant true")
-                elif cn == "std::fs::remove_file" and f in UNLINK_CALLERS:
+                elif cn == "std::fs::remove_file" and in_allowed_family(prog, b, UNLINK_CALLERS):
                     o = peel(arg_origin(b, t, 0))
                     good = o[0] == "call" and o[1] and o[1].split("::")[-1] in ("datafile_name", "hintfile_name")
                     r.add(f, "fs::remove_file(%s)" % (o[1].split("::")[-1] if o[0] == "call" else origin_str(o)), good, where(b, bi), "" if good else "unlink of a path not produced by datafile_name/hintfile_name")
@@ -118,7 +118,7 @@ def w1_file_mutation_api(ctx):
         f = fam_name(b)
         o = peel(arg_origin(b, t, 0))
         nm = o[1].split("::")[-1] if o[0] == "call" and o[1] else origin_str(o)
-        good = f in CREATE_CALLERS and nm in ("datafile_name", "hintfile_name")
+        good = in_allowed_family(prog, b, CREATE_CALLERS) and nm in ("datafile_name", "hintfile_name")
         r.add(f, "log::create(%s)" % nm, good, where(b, bi), "" if good else "file created outside open/rollover/merge or not on a store file name")
     r.note("%d live call terminators enumerated in %d shipped bodies" % (n_calls, len(bodies)))
     r.analysed = ["all %d shipped bodies" % len(bodies)]
@@ -197,7 +197,7 @@ def w2_index_mutators(ctx):
             if m in DASHMAP_READ:
                 r.ok(f, "DashMap::%s(%s) read" % (m, recv), where(b, bi))
             elif m in DASHMAP_MUT:
-                good = f in INDEX_MUTATOR_FAMILIES
+                good = in_allowed_family(prog, b, set(INDEX_MUTATOR_FAMILIES))
                 if good and f.startswith("storage::bitcask::Writer::"):
                     # the method must take &mut self
                     root = prog.bodies.get(b.root)
